@@ -5,26 +5,34 @@
    bound is exceeded, with the first out-of-line byte and the worst excess, for the replay.     *)
 EXTENDS SlicerBounds, SlicerCfgs, Json
 
-Bad == Reading /\ hi >= Limit(C)
+CfgSet == {CfgList[i] : i \in 1..Len(CfgList)}
 
-MinOf(S) == CHOOSE x \in S : \A y \in S : x <= y
+Bad == Reading /\ hi >= Limit(C)
 
 FirstBadBit(c, m) == CHOOSE j \in 0..(DataBits(c) - 1) :
                         /\ ByteHi(c, BitLast(c, m, j)) >= Limit(c)
                         /\ (j = 0 \/ ByteHi(c, BitLast(c, m, j - 1)) < Limit(c))
-\* lowest byte behind the line that step (m, j) touches, counted from the end of the line
-FirstBadByte(c, m, j) == ByteLo(c, MinOf({s \in BitFirst(c, m, j)..BitLast(c, m, j) : ByteHi(c, s) >= Limit(c)})) - Limit(c)
-ScanBadByte(c, m) == ByteLo(c, MinOf({s \in ScanFirst(c, m)..ScanLast(c, m) : ByteHi(c, s) >= Limit(c)})) - Limit(c)
+\* Behind: bytes behind the line touched by a step that reads the samples a..b (an access of the real code that is
+\* trapped behind an exactly sized line must be one of those of the first step that leaves the line)
+SetToSeq(S) == LET RECURSIVE f(_)
+                   f(T) == IF T = {} THEN <<>> ELSE LET x == CHOOSE y \in T : \A z \in T : y <= z IN <<x>> \o f(T \ {x})
+               IN f(S)
+Behind(c, a, b) == SetToSeq({x \in {(ByteLo(c, s) + d) : s \in a..b, d \in 0..c.wide} : x >= Limit(c)})
 
+\* survey: one line per scan step at which the line bound is exceeded (printed at the last bit, the worst one)
 Report ==
   IF pc = "bits" /\ k + 1 = DataBits(C) /\ Bad
   THEN LET j == FirstBadBit(C, n) IN
-       PrintT(<<"TR", ToJson([c |-> ci, ph |-> "bits", n |-> n, k |-> j, fb |-> FirstBadByte(C, n, j),
-                              ex |-> hi + 1 - Limit(C), img |-> IF hi >= Limit(C) + C.after THEN 1 ELSE 0])>>)
+       PrintT(<<"TR", ToJson([c |-> C.id, ph |-> "bits", n |-> n, k |-> j,
+                              bad |-> [i \in 1..Len(Behind(C, BitFirst(C, n, j), BitLast(C, n, j))) |->
+                                          Behind(C, BitFirst(C, n, j), BitLast(C, n, j))[i] - Limit(C)],
+                              ex |-> hi + 1 - Limit(C), img |-> IF hi >= 2 * Limit(C) THEN 1 ELSE 0])>>)
   ELSE IF pc \in {"pro", "scan"} /\ Bad
-  THEN PrintT(<<"TR", ToJson([c |-> ci, ph |-> "scan", n |-> n, k |-> 0,
-                              fb |-> IF pc = "pro" THEN 0 ELSE ScanBadByte(C, n),
-                              ex |-> hi + 1 - Limit(C), img |-> IF hi >= Limit(C) + C.after THEN 1 ELSE 0])>>)
+  THEN LET a == IF pc = "pro" THEN 0 ELSE ScanFirst(C, n)
+           b == IF pc = "pro" THEN Window - 1 ELSE ScanLast(C, n) IN
+       PrintT(<<"TR", ToJson([c |-> C.id, ph |-> "scan", n |-> n, k |-> 0,
+                              bad |-> [i \in 1..Len(Behind(C, a, b)) |-> Behind(C, a, b)[i] - Limit(C)],
+                              ex |-> hi + 1 - Limit(C), img |-> IF hi >= 2 * Limit(C) THEN 1 ELSE 0])>>)
   ELSE TRUE
 Survey == Report
 =============================================================================
